@@ -55,6 +55,10 @@ class GotranPythonCodePrinter(PythonCodePrinter):
             return "numpy.inf" if value > 0 else "(-numpy.inf)"
         return self._print(str(value))
 
+    def _print_re(self, expr):
+        # sympy writes Abs(a**b) as a**re(b) when it cannot tell that b is real
+        return f"numpy.real({self._print(expr.args[0])})"
+
     def _print_Piecewise(self, expr):
         result = []
 
